@@ -79,7 +79,7 @@ M("C11-R3-lexer-ge-removed", "C11", [(L, '"eq" | "ne" | "gt" | "lt" | "ge" | "le
 M("C11-R3-lexer-no-lowercase", "C11", [(L, "LexingMode::RawString => match s.to_lowercase().as_str() {", "LexingMode::RawString => match s.as_str() {")], ["lexer_case"])
 M("C11-R3-asc-not-dropped", "C11", [(L, '"asc" => self.next_lexem(),', '"asc" => Some(Lexem::RawString(s)),')], ["lexer_asc"])
 M("C11-R4-group-case", "C11", [(P, 'if s.to_lowercase() == "group" {\n                                if let Some(Lexem::By) = self.next_lexem() {\n                                    self.drop_lexem();\n                                    self.drop_lexem();\n                                    break;', 'if s == "group" {\n                                if let Some(Lexem::By) = self.next_lexem() {\n                                    self.drop_lexem();\n                                    self.drop_lexem();\n                                    break;')], ["case_parse_fields_group"])
-M("C11-R4-opfrom-case", "C11", [(O, "match text.to_lowercase().as_str() {\n            \"=\" | \"==\"", "match text.as_str() {\n            \"=\" | \"==\"")], ["operator_case"])
+M("C11-R4-opfrom-case", "C11", [(O, "match text.to_lowercase().as_str() {\n            \"=\" | \"==\"", "match text.as_str() {\n            \"=\" | \"==\"")], ["operator_"])
 M("C11-R5-curly-close-any", "C11", [(P, "if (lexem == Lexem::Close && !curly_mode)\n                        || (lexem == Lexem::CurlyClose && curly_mode) =>", "if lexem == Lexem::Close =>")], ["brackets_parse_function"])
 
 # ---------------------------------------------------------------- C04
@@ -141,11 +141,11 @@ M("C06-V-evict-mirrored", "C06", [(T, "if limit < self.count {", "if self.count 
 
 # ---------------------------------------------------------------- C07
 M("C07-R1-int-division", "C07", [(F, "sum as f64 / size as f64", "(sum / size) as f64")], ["integer-division"])
-M("C07-R2-min-uses-max", "C07", [(F, "                .min()\n                .unwrap_or(0); // If no items were found\n\n            min.to_string()", "                .max()\n                .unwrap_or(0); // If no items were found\n\n            min.to_string()")], ["primitive_Min"])
-M("C07-R2-varsamp-divisor", "C07", [(F, "            let size = raw_output_buffer.len();\n            let n = if size == 1 { 1 } else { size - 1 };\n            let variance = get_variance(raw_output_buffer, &buffer_key, n);\n\n            variance.to_string()", "            let size = raw_output_buffer.len();\n            let n = if size == 1 { 1 } else { size };\n            let variance = get_variance(raw_output_buffer, &buffer_key, n);\n\n            variance.to_string()")], ["primitive_VarSamp"])
-M("C07-R2-stddevpop-no-sqrt", "C07", [(F, "            let n = raw_output_buffer.len();\n            let variance = get_variance(raw_output_buffer, &buffer_key, n);\n            let result = variance.sqrt();", "            let n = raw_output_buffer.len();\n            let variance = get_variance(raw_output_buffer, &buffer_key, n);\n            let result = variance;")], ["primitive_StdDevPop"])
-M("C07-R2-count-sum", "C07", [(F, "Some(Function::Count) => raw_output_buffer.len().to_string(),", "Some(Function::Count) => get_buffer_sum(raw_output_buffer, &buffer_key).to_string(),")], ["primitive_Count"])
-M("C07-R2-variance-abs", "C07", [(F, "result += (avg - value).powi(2) / n as f64;", "result += (avg - value).abs() / n as f64;")], ["variance-formula"])
+M("C07-R2-min-uses-max", "C07", [(F, "                .min()\n                .unwrap_or(0); // If no items were found\n\n            min.to_string()", "                .max()\n                .unwrap_or(0); // If no items were found\n\n            min.to_string()")], ["aggregate-value_Min"])
+M("C07-R2-varsamp-divisor", "C07", [(F, "            let size = raw_output_buffer.len();\n            let n = if size == 1 { 1 } else { size - 1 };\n            let variance = get_variance(raw_output_buffer, &buffer_key, n);\n\n            variance.to_string()", "            let size = raw_output_buffer.len();\n            let n = if size == 1 { 1 } else { size };\n            let variance = get_variance(raw_output_buffer, &buffer_key, n);\n\n            variance.to_string()")], ["aggregate-value_VarSamp"])
+M("C07-R2-stddevpop-no-sqrt", "C07", [(F, "            let n = raw_output_buffer.len();\n            let variance = get_variance(raw_output_buffer, &buffer_key, n);\n            let result = variance.sqrt();", "            let n = raw_output_buffer.len();\n            let variance = get_variance(raw_output_buffer, &buffer_key, n);\n            let result = variance;")], ["aggregate-value_StdDevPop"])
+M("C07-R2-count-sum", "C07", [(F, "Some(Function::Count) => raw_output_buffer.len().to_string(),", "Some(Function::Count) => get_buffer_sum(raw_output_buffer, &buffer_key).to_string(),")], ["aggregate-value_Count"])
+M("C07-R2-variance-abs", "C07", [(F, "result += (avg - value).powi(2) / n as f64;", "result += (avg - value).abs() / n as f64;")], ["aggregate-value_"])
 M("C07-R3-buffer-before-filter", "C07", [(S, "        self.fms.clear();\n\n        if let Some(ref expr) = self.query.expr {", "        self.fms.clear();\n        if self.has_aggregate_column() {\n            self.raw_output_buffer.push(HashMap::new());\n        }\n\n        if let Some(ref expr) = self.query.expr {")], ["buffer_"])
 
 # ---------------------------------------------------------------- C15
